@@ -396,9 +396,34 @@ pub(crate) fn request_grid(env: &Env, report: &mut Report, constant_difficulty: 
                     }
                 }
             }
+            // three difficulties: an earlier one + two neighbours (a block's total and a value
+            // strictly inside the next block) - dropping the sample of the middle one leaves a
+            // sampled section behind AND an unanswered difficulty that is only reached inside the
+            // first last-N block
+            for i in 1..cands.len().saturating_sub(1) {
+                let js: Vec<usize> = if thorough { (0..i).collect() } else { vec![0, i.saturating_sub(2)] };
+                for j in js {
+                    if j >= i {
+                        continue;
+                    }
+                    for k in if thorough { vec![i + 1, i + 2] } else { vec![i + 1] } {
+                        if k < cands.len() {
+                            let set = vec![cands[j].clone(), cands[i].clone(), cands[k].clone()];
+                            if !sample_sets.contains(&set) {
+                                sample_sets.push(set);
+                            }
+                        }
+                    }
+                }
+            }
             for boundary in &boundaries {
+                let mut seen_sets: Vec<Vec<U256>> = vec![];
                 for samples in &sample_sets {
                     let samples: Vec<U256> = samples.iter().filter(|d| *d > &td(start) && *d < boundary).cloned().collect();
+                    if seen_sets.contains(&samples) {
+                        continue;
+                    }
+                    seen_sets.push(samples.clone());
                     case_no += 1;
                     if case_no % slice.1 != slice.0 {
                         continue;
